@@ -188,7 +188,7 @@ static void check_cmdargs(const std::string &s)
 // ---------------------------------------------------------------- memmem / replace / replace_substrings
 static std::vector<std::string> needles_for(const std::string &s)
 {
-    std::vector<std::string> v = {"a", "ab", "aa", std::string("a\0", 2), "/.", std::string("\0", 1), "ba\"", " "};
+    std::vector<std::string> v = {"a", "ab", "aa", std::string("a\0", 2), "/.", std::string("\0", 1), "ba\"", " ", "\xE1", "\xA0 ", "\xFF"};
     size_t n = s.size();
     for (size_t l = 1; l <= 3 && l <= n; l++)
     {
@@ -236,8 +236,12 @@ struct Sub
 };
 static const Sub SUBS[] = {{"a", ""},     {"a", "b"},    {"a", "aa"},  {"ab", "a"},   {"aa", "a"},          {" ", "\t\t"},
                            {"/.", "/"},   {"", "a"},     {"b", "xyz"}, {"\"", "\\\""}, {std::string("\0", 1), "0"}, {"a", std::string("\0", 1)},
-                           {"aba", "ab"}, {"\n", "\r\n"}};
-static void check_replace(const std::string &s, uint64_t salt)
+                           {"aba", "ab"}, {"\n", "\r\n"},
+                           // pattern and replacement of equal length (>= 2: a cut can fall inside an occurrence)
+                           {"ab", "cd"},  {"aa", "bb"},  {"/.", "./"}, {"a a", "b b"},
+                           // the |0x80 twins of pattern bytes must neither match nor be produced
+                           {"\xA0", " "},  {" ", "\xA0"}, {"a\xE1", "\xE1" "a"}, {"\xFF", "\x80\x80"}};
+static void check_replace(const std::string &s, uint64_t salt, size_t dense_limit)
 {
     for (size_t k = 0; k < sizeof SUBS / sizeof SUBS[0]; k++)
     {
@@ -256,7 +260,18 @@ static void check_replace(const std::string &s, uint64_t salt)
         vf::Exact in(s.data(), s.size(), pl.mis, pl.mirror), pe(sb.pat.data(), sb.pat.size(), 0, m == 1),
             re(sb.rep.data(), sb.rep.size(), 1, m == 1);
         size_t fits = ref.size() + 1;
-        size_t sizes[4] = {fits, fits + 3, ref.size(), (k + salt) % 3 == 0 ? (size_t)0 : (k + salt) % 3 == 1 ? (size_t)1 : ref.size() / 2};
+        // every maxsize from 0 to beyond the full length for short results, else the corner sizes plus seeded ones
+        std::vector<size_t> sizes;
+        if (ref.size() <= dense_limit)
+            for (size_t z = 0; z <= fits + 1; z++)
+                sizes.push_back(z);
+        else
+        {
+            sizes = {fits, fits + 3, ref.size(), 0, 1, 2, ref.size() / 2};
+            vf::Rng zr(0x5125, salt, k);
+            for (int z = 0; z < 12; z++)
+                sizes.push_back((size_t)zr.below(fits));
+        }
         for (size_t maxsize : sizes)
         {
             vf::Exact out(nullptr, maxsize, 1, false);
@@ -266,12 +281,27 @@ static void check_replace(const std::string &s, uint64_t salt)
             {
                 if (memcmp(out.p, ref.data(), ref.size()) != 0 || out.p[ref.size()] != 0)
                     vf::fail("replace_substrings:!=reference", "input=\"%s\" pattern=\"%s\" with=\"%s\" maxsize=%zu got=\"%s\" ref=\"%s\"",
-                             show(s).c_str(), show(sb.pat).c_str(), show(sb.rep).c_str(), maxsize,
-                             vf::esc(out.p, maxsize < fits ? maxsize : fits).c_str(), show(ref).c_str());
+                             show(s).c_str(), show(sb.pat).c_str(), show(sb.rep).c_str(), maxsize, vf::esc(out.p, fits).c_str(), show(ref).c_str());
                 VF_OK("replace_substrings == reference + terminator when it fits");
             }
+            else if (maxsize >= 1)
+            {
+                // the routine's own contract since it honours maxsize: the substituted text cut to maxsize - 1 bytes, terminated
+                if (memcmp(out.p, ref.data(), maxsize - 1) != 0 || out.p[maxsize - 1] != 0)
+                {
+                    char key[120];
+                    snprintf(key, sizeof key, "replace_substrings:truncated!=prefix-of-reference:%s",
+                             sb.pat.size() == sb.rep.size() ? "sublen==replen" : sb.pat.size() < sb.rep.size() ? "sublen<replen" : "sublen>replen");
+                    vf::fail(key, "input=\"%s\" pattern=\"%s\" with=\"%s\" maxsize=%zu got=\"%s\" (terminator %s) full result=\"%s\"", show(s).c_str(),
+                             show(sb.pat).c_str(), show(sb.rep).c_str(), maxsize, vf::esc(out.p, maxsize - 1).c_str(),
+                             out.p[maxsize - 1] == 0 ? "present" : "missing", show(ref).c_str());
+                }
+                VF_OK("replace_substrings truncated == first maxsize-1 bytes of the full result + terminator");
+                if (sb.pat.size() == sb.rep.size() && sb.pat.size() >= 2)
+                    VF_OK("replace_substrings truncated, pattern and replacement of equal length >= 2");
+            }
             else
-                VF_OK("replace_substrings with a too small maxsize stays inside the output block (ASan)");
+                VF_OK("replace_substrings with maxsize 0 writes nothing (ASan)");
         }
     }
 }
@@ -327,17 +357,15 @@ static void check_creader(const std::string &s)
 // in one routine cannot hide the others; all walk the same enumeration
 static uint64_t n_enum() { return enum_cases(true); }
 static uint64_t n_enum_exp() { return enum_cases(false); }
-static void bulk(uint64_t idx, bool cheap = true) { enum_bulk(idx, cheap); }
 static void split_run(uint64_t idx)
 {
     enum_run(idx, [](const std::string &s) {
         if (vf::verbose())
             printf("  split/join/trim input=\"%s\"\n", show(s).c_str());
         check_split(s);
-    });
-    bulk(idx);
+    }, true, true);
     if (idx == 40 && vf::want_sample())
-        vf::sample("enumeration: every string of length <= %d over {' ',a,b,/,.,\",\\t,\\n,NUL}; e.g. \"%s\" through split(' '), split('/'), "
+        vf::sample("enumeration: every string of length <= %d over {' ',a,b,/,.,\",\\t,\\n,NUL} and of length <= 4 over their |0x80 twins; e.g. \"%s\" through split(' '), split('/'), "
                    "split(\" \\t\\n\"), split(\"/.\"), split(\"b\"), join, trim in both placements",
                    enum_maxlen(), show(nth(40 * enum_batch() + 5)).c_str());
 }
@@ -348,8 +376,7 @@ static void cmdargs_run(uint64_t idx)
         if (vf::verbose())
             printf("  split_cmdargs input=\"%s\"\n", show(s).c_str());
         check_cmdargs(s);
-    });
-    bulk(idx);
+    }, true, true);
 }
 VF_SUITE(enum_cmdargs, n_enum, cmdargs_run)
 static void memmem_run(uint64_t idx)
@@ -358,8 +385,7 @@ static void memmem_run(uint64_t idx)
         if (vf::verbose())
             printf("  memmem haystack=\"%s\"\n", show(s).c_str());
         check_memmem(s);
-    }, false);
-    bulk(idx, false);
+    }, false, true);
 }
 VF_SUITE(enum_memmem, n_enum_exp, memmem_run)
 static void replace_run(uint64_t idx)
@@ -368,9 +394,8 @@ static void replace_run(uint64_t idx)
     enum_run(idx, [&](const std::string &s) {
         if (vf::verbose())
             printf("  replace input=\"%s\"\n", show(s).c_str());
-        check_replace(s, i++);
-    }, false);
-    bulk(idx, false);
+        check_replace(s, i++, 14);
+    }, false, true);
 }
 VF_SUITE(enum_replace, n_enum_exp, replace_run)
 static void creader_run(uint64_t idx)
@@ -379,8 +404,7 @@ static void creader_run(uint64_t idx)
         if (vf::verbose())
             printf("  creader input=\"%s\"\n", show(s).c_str());
         check_creader(s);
-    });
-    bulk(idx);
+    }, true, true);
 }
 VF_SUITE(enum_creader, n_enum, creader_run)
 
@@ -395,7 +419,7 @@ static void rand_run(uint64_t idx)
     check_split(s);
     check_cmdargs(s);
     check_memmem(s);
-    check_replace(s, idx);
+    check_replace(s, idx, 40);
     check_creader(s);
     vf::count_case(vf::hash_bytes(s.data(), s.size()), s.size() >= 1);
     if (s.size() > 30 && vf::want_sample())
@@ -413,7 +437,8 @@ extern "C" void vf_setup()
           "trim == input without leading/trailing {space,\\n,\\r,\\t}", "split_cmdargs == quote-aware space tokeniser (DESIGN 3a)",
           "igris_memmem == first occurrence or none", "igris_memmem: match ending at the last byte",
           "replace == left-to-right non-overlapping substitution", "replace_substrings == reference + terminator when it fits",
-          "replace_substrings with a too small maxsize stays inside the output block (ASan)",
+          "replace_substrings truncated == first maxsize-1 bytes of the full result + terminator",
+          "replace_substrings truncated, pattern and replacement of equal length >= 2", "replace_substrings with maxsize 0 writes nothing (ASan)",
           "creader_readline: line and cursor inside [strt, fini]", "creader_readline at the end returns -1",
           "creader_skipws == length of the leading white-space run"})
         vf::require(c);
